@@ -62,13 +62,28 @@ func partition(line, delim string) (string, string) {
 
 }
 
+// ignoredLine: the lines deb-changelog(5) says are ignored wherever they
+// stand - "#" comments, C-style comment lines, RCS keyword lines.
+func ignoredLine(line string) bool {
+	text := trim(line)
+	switch {
+	case strings.HasPrefix(line, "#"):
+		return true
+	case strings.HasPrefix(line, "/*") && strings.HasSuffix(text, "*/"):
+		return true
+	case strings.HasPrefix(line, "$") && strings.HasSuffix(text, "$") && strings.Contains(text, ":"):
+		return true
+	}
+	return false
+}
+
 func ParseOne(reader *bufio.Reader) (*ChangelogEntry, error) {
 	changeLog := ChangelogEntry{}
 
 	var header string
 	for {
 		line, err := reader.ReadString('\n')
-		if strings.HasPrefix(line, "#") {
+		if ignoredLine(line) {
 			/* comment lines are ignored (deb-changelog(5)); trimmed
 			 * changelogs end in two of them */
 			if err != nil {
